@@ -67,6 +67,8 @@ func init() {
 	switch mode {
 	case "c08":
 		vC08(seed, count, extra)
+	case "c09":
+		vC09(seed, count, extra)
 	case "transpile-stdin":
 		// one hex-encoded source per line -> "ok <hex go>" | "err <hex msg>"
 		sc := bufio.NewScanner(os.Stdin)
